@@ -298,6 +298,30 @@ def check_markdown_text(name):
     return out
 
 
+def check_similar_names():
+    """a name that differs from the name of a sub recipe only in punctuation is a name of its own: it is shown as written, as an ingredient,
+    not replaced by a link to the look-alike"""
+    from recipe_grid.compiler import compile as rg_compile
+    out = []
+    q = lambda name: '"' + name.replace("\\", "\\\\").replace('"', '\\"') + '"'  # noqa
+    pairs = [("salt & pepper", "salt # pepper"), ('50% "rye"', "50 'rye'"), ("a+b", "a b"), ("x.y", "x y"), ("it's", "it s"), ("fish & chips", "fish, chips"),
+             ("A*B", "A B"), ("1/2 & 1/2", "1/2 $ 1/2"), ("bread (white)", "bread white")]
+    for a, b in pairs:
+        src = "%s = grind(peppercorns)\nseason(%s, %s)\n" % (q(a), q(a), q(b))
+        try:
+            recipes = rg_compile([src])
+        except Exception as e:  # noqa
+            out.append(("C10:text-breaks-rendering:%s" % type(e).__name__, "%r: %s" % (src, str(e)[:120])))
+            continue
+        cells = []
+        for t in recipes[0].recipe_trees:
+            root, _ = htmltok.tree(render_recipe_tree(t, "r-"))
+            cells += [(n.classes()[0] if n.classes() else "", " ".join(n.text().split())) for n in root.iter() if n.tag == "td"]
+        if ("rg-ingredient", " ".join(b.split())) not in cells:
+            out.append(("C10:visible-text-differs", "the ingredient %r (next to the sub recipe %r) is shown as %r" % (b, a, [c for c in cells if c[0] != "rg-step"])))
+    return out
+
+
 def correspondence(run):
     cases = gen_cases(run, run.budget(1200, 20000))
     rep = run.ask([sexp.tag("html", sexp.s(pre), rsexp.tree(t)) for t, pre in cases])
@@ -330,6 +354,9 @@ def oracle(run):
         run.case(("markdown-text", name), True, kind="markdown-text")
         for sig, detail in check_markdown_text(name):
             run.violate(sig, detail, {"markdown_text": name})
+    run.case(("similar-names",), True, kind="similar-names")
+    for sig, detail in check_similar_names()[:3]:
+        run.violate(sig, detail, {"similar_names": True})
     run.case(("placeholder-replay",), True, kind="placeholder-replay")
     for sig, detail in check_placeholder_replay():
         run.violate(sig, detail, {"placeholder_replay": True})
@@ -350,7 +377,9 @@ def oracle(run):
 
 def replay(run, obj):
     r = obj["replay"]
-    if "markdown_text" in r:
+    if "similar_names" in r:
+        res = check_similar_names()
+    elif "markdown_text" in r:
         res = check_markdown_text(r["markdown_text"])
     elif "placeholder_replay" in r:
         res = check_placeholder_replay()
